@@ -151,7 +151,21 @@ def gen_spec(rng, langs=None, npkgs=None, shapes=None, flags=None):
     }
     if flags:
         spec.update(flags)
-    if shapes.get("intersection"):
+    if shapes.get("case_twins"):
+        # two definitions whose names differ only in letter case (legal in JSON Schema and OpenAPI), in a
+        # JSON Schema input and in an OpenAPI input: their order must come from a total order on names.
+        # Only the schema outputs accept them (identifiers colliding after casing are C02's finding).
+        inputs[-1]["format"] = "openapi"
+        for inp in (inputs[0], inputs[-1]):
+            for n, k in (("status", "string"), ("Status", "integer")):
+                inp["defs"].append({"name": n, "def": {"kind": "struct", "fields": [
+                    {"name": "code", "type": {"t": k}, "required": True}]}})
+            inp["defs"][0]["def"]["fields"] += [
+                {"name": "statusLower", "type": {"t": "ref", "to": "status"}, "required": False},
+                {"name": "statusUpper", "type": {"t": "ref", "to": "Status"}, "required": False}]
+        spec["languages"] = ["jsonschema", "openapi"]
+        spec["builders"] = spec["converters"] = spec["api_reference"] = False
+    if shapes.get("intersection") and not shapes.get("case_twins"):
         # allOf with an inline struct branch is only generated successfully by these (go emits code
         # goimports rejects, php reports an unhandled kind, python panics)
         keep = [l for l in spec["languages"] if l in INTERSECTION_LANGS]
@@ -266,6 +280,8 @@ def gen_spec(rng, langs=None, npkgs=None, shapes=None, flags=None):
         for inp in inputs[:2]:
             inp["defs"].append({"name": "Common", "def": gen_struct(rng, [], 2)})
             link_unreferenced(inp["defs"])
+    if shapes.get("case_twins"):
+        spec["builders"] = spec["converters"] = spec["api_reference"] = False
     return spec
 
 
@@ -379,7 +395,7 @@ def render(spec):
 
 SHAPE_KEYS = ["two_discriminators", "struct_default", "nested_params", "set_default_twice", "colliding_names", "openapi",
               "factories", "compose", "config_maps", "rename_root", "intersection", "mutual_params", "veneer_levels",
-              "same_named_append"]
+              "same_named_append", "case_twins"]
 
 
 def gen_case(rng, langs=None, shapes=None, flags=None, npkgs=None):
